@@ -30,14 +30,20 @@ static void out(const std::vector<double> &v) { for (double d : v) printf("%a ",
 int main(int argc, char **argv)
 {
   if (argc < 2) return 2;
-  std::unique_ptr<World> w;
-  try { w.reset(new World(argv[1], false, "", argc > 2 ? std::stoul(argv[2]) : 1, true)); }
+  // usage: gwbq <world file> [seed] [more world files ...]; "use <k>" switches to the k-th world (all stay alive)
+  std::vector<std::unique_ptr<World>> worlds;
+  unsigned long seed = 1;
+  std::vector<std::string> files;
+  for (int a = 1; a < argc; ++a) { std::string s(argv[a]); if (a == 2 && s.find_first_not_of("0123456789") == std::string::npos) seed = std::stoul(s); else files.push_back(s); }
+  try { for (auto &f : files) worlds.emplace_back(new World(f, false, "", seed, true)); }
   catch (std::exception &e) { printf("CONSTRUCT-EXC %s\n", std::string(e.what()).substr(0,200).c_str()); return 3; }
+  World *w = worlds[0].get();
   printf("OK\n"); fflush(stdout);
   std::string line;
   while (std::getline(std::cin, line))
     {
       std::istringstream is(line); std::string cmd; is >> cmd;
+      if (cmd == "use") { size_t k; is >> k; if (k < worlds.size()) { w = worlds[k].get(); printf("0x0p+0\n"); } else printf("EXC no such world\n"); fflush(stdout); continue; }
       try {
         if (cmd == "p3") { double x,y,z,d; is>>x>>y>>z>>d; out(w->properties(std::array<double,3>{{x,y,z}}, d, parse_props(is))); }
         else if (cmd == "p2") { double x,z,d; is>>x>>z>>d; out(w->properties(std::array<double,2>{{x,z}}, d, parse_props(is))); }
